@@ -1,6 +1,7 @@
 package main
 
 import (
+	"sort"
 	"errors"
 	"fmt"
 	"os"
@@ -227,6 +228,18 @@ func runResLib(args []string) error {
 			// a replay that is aborted by its callback must release the files as well
 			w2.Replay(func(b []byte) error { return errors.New("stop") })
 			obs(ci, true, 0, "after aborted replay")
+			// the newest file cut inside its last record (torn tail after a kill): the tolerated end of the replay releases the file too
+			ws, _ := filepath.Glob(filepath.Join(d, "*.wal"))
+			sort.Strings(ws)
+			if len(ws) > 0 {
+				if st, err := os.Stat(ws[len(ws)-1]); err == nil && st.Size() > 12 {
+					os.Truncate(ws[len(ws)-1], st.Size()-3)
+				}
+			}
+			w3, _ := wal.NewReplayer(opts)
+			rerr := w3.Replay(func(b []byte) error { return nil })
+			tr.emit(M{"t": "note", "name": fmt.Sprintf("replay of a log with a torn tail: err=%v", rerr)})
+			obs(ci, true, 0, "after replay of a torn tail")
 		}
 		os.RemoveAll(base)
 	}
